@@ -588,3 +588,21 @@ Proof.
   apply (snapshot_transparency (fun a => a) 1 false (fun s nf F => s = snap0 /\ nf = [1] /\ F = F0) Hr
            b_after_first st2 [1] [] snap0 (info_of 1 (store_get st2 1)) []); auto.
 Qed.
+
+(* ------------------------------------------------------------------ PacketTimestampMin/Max are min/max over ALL records *)
+(* Import.info_of (readPackets) folds min and max over every record of the file; the replay order (feed theorem, hypothesis
+   [pcap_ok]: every packet of a replayed capture is at least as young as the capture's PacketTimestampMin, established in
+   [needed_ok] from [info_min]) depends on exactly that.  With the timestamp of the FIRST record instead, a capture whose
+   records are not in timestamp order is loaded too late and new packets overtake its older packets: *)
+Theorem capture_info_is_min_max f l p : In p l -> pi_min (info_of f l) <= p_ts p /\ p_ts p <= pi_max (info_of f l).
+Proof. intros H. split; [apply info_min|apply info_max]; exact H. Qed.
+
+Definition unsorted_capture : list packet :=
+  [ mkPacket 20 0 0 (1, 1) (2, 2) false false false false false 0 [];
+    mkPacket 10 0 1 (1, 1) (2, 2) false false false false false 0 [] ].
+Definition later_packet : list packet := [ mkPacket 15 1 0 (1, 1) (2, 2) false false false false false 0 [] ].
+
+Example replay_order_with_first_record_time_refuted :
+  map p_ts (feed [(20, unsorted_capture)] later_packet) = [15; 10; 20] /\
+  map p_ts (feed [(pi_min (info_of 0 unsorted_capture), unsorted_capture)] later_packet) = [10; 15; 20].
+Proof. vm_compute. split; reflexivity. Qed.
